@@ -59,10 +59,14 @@ Definition exact_header (o : sopts) (tok : bytes) (inface mark : option N) : Z :
    + (match inface with Some i => if o_ifi o then 3 + 1 + znat i else 0 | None => 0 end)
    + (match mark with Some m => 3 + 1 + znat m | None => 0 end))%Z.
 
-(* payload bytes per fragment *)
+(* payload bytes per fragment; hdr = the link service's cached l.headerOverhead *)
+Definition effective_mtu_h (mtu hdr : Z) (tok : bytes) (mark : option N) : Z :=
+  (mtu - hdr - token_len tok - (match mark with Some _ => Z.of_N c_congestionMarkOverhead | None => 0 end))%Z.
+
+(* computeHeaderOverhead: the reservation that belongs to a set of options *)
+Definition compute_header_overhead (o : sopts) : N := c_headerOverhead (o_frag o) (o_ifi o).
 Definition effective_mtu (mtu : Z) (o : sopts) (tok : bytes) (mark : option N) : Z :=
-  (mtu - Z.of_N (c_headerOverhead (o_frag o) (o_ifi o)) - token_len tok
-   - (match mark with Some _ => Z.of_N c_congestionMarkOverhead | None => 0 end))%Z.
+  effective_mtu_h mtu (Z.of_N (compute_header_overhead o)) tok mark.
 
 (* the split loop: n-1 pieces of eff bytes, then the rest *)
 Fixpoint chunk_list (n : nat) (eff : N) (w : bytes) : list bytes :=
@@ -84,22 +88,46 @@ Fixpoint number_frags (seq : N) (i : N) (cnt : N) (tok : bytes) (inface mark : o
 (* mark is the congestion mark that will be attached (pkt.CongestionMark, or 1 when the link service decides to mark:
    that decision depends on time and socket queue length and is an input here).  inface is out.InFace.
    Result: header fields of every frame, and the next sequence number. *)
-Definition send_fields (mtu : Z) (o : sopts) (seq : N) (tok : bytes) (inface mark : option N) (wire : bytes)
+Definition send_fields_h (mtu hdr : Z) (o : sopts) (seq : N) (tok : bytes) (inface mark : option N) (wire : bytes)
   : list lpf * N :=
   let inface' := if o_ifi o then inface else None in
   if (lp_frame_length (exact_header o tok inface mark) (zlen wire) <=? mtu)%Z then
     ([mkLpf None None None tok inface' None None mark (Some wire)], seq)
   else if negb (o_frag o) then ([], seq)
   else
-    let eff := effective_mtu mtu o tok mark in
+    let eff := effective_mtu_h mtu hdr tok mark in
     if (eff <=? 0)%Z then ([], seq)
     else
       let n := ((zlen wire + eff - 1) / eff)%Z in
       let cs := chunk_list (Z.to_nat n) (Z.to_N eff) wire in
       (number_frags seq 0 (Z.to_N n) tok inface' mark cs, u64 (seq + Z.to_N n)).
 
+(* a link service whose cached reservation is the one of its options *)
+Definition send_fields (mtu : Z) (o : sopts) := send_fields_h mtu (Z.of_N (compute_header_overhead o)) o.
+
 Definition send_packet mtu o seq tok inface mark wire : list bytes * N :=
   let '(fs, s) := send_fields mtu o seq tok inface mark wire in (map lp_encode fs, s).
+
+(* The send side of a link service as state: options, the cached headerOverhead, the fragment sequence counter.
+   MakeNDNLPLinkService: l.options = options; l.computeHeaderOverhead().   SetOptions: the same two statements. *)
+Record lsend := mkLs { ls_opts : sopts; ls_hdr : N; ls_seq : N }.
+Definition make_ls (o : sopts) : lsend := mkLs o (compute_header_overhead o) 0.
+Definition set_options (l : lsend) (o : sopts) : lsend := mkLs o (compute_header_overhead o) (ls_seq l).
+Definition set_next_seq (l : lsend) (s : N) : lsend := mkLs (ls_opts l) (ls_hdr l) s.
+Definition ls_send (mtu : Z) (l : lsend) (tok : bytes) (inface mark : option N) (wire : bytes) : list bytes * lsend :=
+  let '(fs, s) := send_fields_h mtu (Z.of_N (ls_hdr l)) (ls_opts l) (ls_seq l) tok inface mark wire in
+  (map lp_encode fs, mkLs (ls_opts l) (ls_hdr l) s).
+
+(* histories of a link service's send side: SetOptions (management faces/update), SetMTU is the mtu of each send *)
+Inductive lsev := EvSet (o : sopts) | EvSeq (s : N) | EvSend (mtu : Z) (tok : bytes) (inface mark : option N) (wire : bytes).
+Fixpoint ls_run (l : lsend) (evs : list lsev) (acc : list (Z * list bytes)) : lsend * list (Z * list bytes) :=
+  match evs with
+  | [] => (l, rev acc)
+  | EvSet o :: r => ls_run (set_options l o) r acc
+  | EvSeq s :: r => ls_run (set_next_seq l s) r acc
+  | EvSend mtu tok inface mark wire :: r =>
+    let '(frames, l') := ls_send mtu l tok inface mark wire in ls_run l' r ((mtu, frames) :: acc)
+  end.
 
 (* --- the code before the repair "fix: sendPacket ..." (for the refutation lemma only) ---
    budget: MTU - headerOverhead_old - (8 if the *incoming* packet had a token) - (12 if it had a mark); no Fragment TL;
